@@ -94,6 +94,11 @@ fn inv(op: &Op, _ctx: &dyn Context, operands: &mut dyn CoordinateSet) -> usize {
                     let d = t - coord + t2;
                     t = t - d;
                     if d[0].hypot(d[1]) < 1e-12 {
+                        // As in the forward case, only the horizontal coordinates are
+                        // shifted: Height and time come back as they were given (iterating
+                        // on them turns an infinite value into inf - inf = NaN)
+                        t[2] = coord[2];
+                        t[3] = coord[3];
                         operands.set_coord(i, &t);
                         successes += 1;
                         continue 'points;
